@@ -1243,7 +1243,7 @@ package astits
 //@   requires d != nil ==> okAC3(d)
 //@   ensures [C14,C13,C09] len: result == ite(d == nil, 0, u8(lenAC3(d)))
 //@ func writeDescriptorAC3
-//@   requires aligned(w) && 0 <= wN(w) && wN(w) < 0x400000000000 && okAC3(d)
+//@   requires aligned(w) && 0 <= wN(w) && wN(w) < 0x100000000000 && okAC3(d)
 //@   modifies writer(w)
 //@   ensures [C14,C13,C09] body: wN(w) == old(wN(w)) + lenAC3(d) && aligned(w) && result == nil
 //@   ensures [C14,C13,C09] prefix: wPrefix(w)
@@ -1252,7 +1252,7 @@ package astits
 //@   requires d != nil ==> okAVCVideo(d)
 //@   ensures [C14,C13,C09] len: result == ite(d == nil, 0, u8(lenAVCVideo(d)))
 //@ func writeDescriptorAVCVideo
-//@   requires aligned(w) && 0 <= wN(w) && wN(w) < 0x400000000000 && okAVCVideo(d)
+//@   requires aligned(w) && 0 <= wN(w) && wN(w) < 0x100000000000 && okAVCVideo(d)
 //@   modifies writer(w)
 //@   ensures [C14,C13,C09] body: wN(w) == old(wN(w)) + lenAVCVideo(d) && aligned(w) && result == nil
 //@   ensures [C14,C13,C09] prefix: wPrefix(w)
@@ -1261,7 +1261,7 @@ package astits
 //@   requires d != nil ==> okComponent(d)
 //@   ensures [C14,C13,C09] len: result == ite(d == nil, 0, u8(lenComponent(d)))
 //@ func writeDescriptorComponent
-//@   requires aligned(w) && 0 <= wN(w) && wN(w) < 0x400000000000 && okComponent(d)
+//@   requires aligned(w) && 0 <= wN(w) && wN(w) < 0x100000000000 && okComponent(d)
 //@   modifies writer(w)
 //@   ensures [C14,C13,C09] body: wN(w) == old(wN(w)) + lenComponent(d) && aligned(w) && result == nil
 //@   ensures [C14,C13,C09] prefix: wPrefix(w)
@@ -1270,7 +1270,7 @@ package astits
 //@   requires d != nil ==> okDataStreamAlignment(d)
 //@   ensures [C14,C13,C09] len: result == ite(d == nil, 0, u8(lenDataStreamAlignment(d)))
 //@ func writeDescriptorDataStreamAlignment
-//@   requires aligned(w) && 0 <= wN(w) && wN(w) < 0x400000000000 && okDataStreamAlignment(d)
+//@   requires aligned(w) && 0 <= wN(w) && wN(w) < 0x100000000000 && okDataStreamAlignment(d)
 //@   modifies writer(w)
 //@   ensures [C14,C13,C09] body: wN(w) == old(wN(w)) + lenDataStreamAlignment(d) && aligned(w) && result == nil
 //@   ensures [C14,C13,C09] prefix: wPrefix(w)
@@ -1279,7 +1279,7 @@ package astits
 //@   requires d != nil ==> okEnhancedAC3(d)
 //@   ensures [C14,C13,C09] len: result == ite(d == nil, 0, u8(lenEnhancedAC3(d)))
 //@ func writeDescriptorEnhancedAC3
-//@   requires aligned(w) && 0 <= wN(w) && wN(w) < 0x400000000000 && okEnhancedAC3(d)
+//@   requires aligned(w) && 0 <= wN(w) && wN(w) < 0x100000000000 && okEnhancedAC3(d)
 //@   modifies writer(w)
 //@   ensures [C14,C13,C09] body: wN(w) == old(wN(w)) + lenEnhancedAC3(d) && aligned(w) && result == nil
 //@   ensures [C14,C13,C09] prefix: wPrefix(w)
@@ -1288,7 +1288,7 @@ package astits
 //@   requires d != nil ==> okISO639LanguageAndAudioType(d)
 //@   ensures [C14,C13,C09] len: result == ite(d == nil, 0, u8(lenISO639LanguageAndAudioType(d)))
 //@ func writeDescriptorISO639LanguageAndAudioType
-//@   requires aligned(w) && 0 <= wN(w) && wN(w) < 0x400000000000 && okISO639LanguageAndAudioType(d)
+//@   requires aligned(w) && 0 <= wN(w) && wN(w) < 0x100000000000 && okISO639LanguageAndAudioType(d)
 //@   modifies writer(w)
 //@   ensures [C14,C13,C09] body: wN(w) == old(wN(w)) + lenISO639LanguageAndAudioType(d) && aligned(w) && result == nil
 //@   ensures [C14,C13,C09] prefix: wPrefix(w)
@@ -1297,7 +1297,7 @@ package astits
 //@   requires d != nil ==> okMaximumBitrate(d)
 //@   ensures [C14,C13,C09] len: result == ite(d == nil, 0, u8(lenMaximumBitrate(d)))
 //@ func writeDescriptorMaximumBitrate
-//@   requires aligned(w) && 0 <= wN(w) && wN(w) < 0x400000000000 && okMaximumBitrate(d)
+//@   requires aligned(w) && 0 <= wN(w) && wN(w) < 0x100000000000 && okMaximumBitrate(d)
 //@   modifies writer(w)
 //@   ensures [C14,C13,C09] body: wN(w) == old(wN(w)) + lenMaximumBitrate(d) && aligned(w) && result == nil
 //@   ensures [C14,C13,C09] prefix: wPrefix(w)
@@ -1306,7 +1306,7 @@ package astits
 //@   requires d != nil ==> okNetworkName(d)
 //@   ensures [C14,C13,C09] len: result == ite(d == nil, 0, u8(lenNetworkName(d)))
 //@ func writeDescriptorNetworkName
-//@   requires aligned(w) && 0 <= wN(w) && wN(w) < 0x400000000000 && okNetworkName(d)
+//@   requires aligned(w) && 0 <= wN(w) && wN(w) < 0x100000000000 && okNetworkName(d)
 //@   modifies writer(w)
 //@   ensures [C14,C13,C09] body: wN(w) == old(wN(w)) + lenNetworkName(d) && aligned(w) && result == nil
 //@   ensures [C14,C13,C09] prefix: wPrefix(w)
@@ -1315,7 +1315,7 @@ package astits
 //@   requires d != nil ==> okPrivateDataIndicator(d)
 //@   ensures [C14,C13,C09] len: result == ite(d == nil, 0, u8(lenPrivateDataIndicator(d)))
 //@ func writeDescriptorPrivateDataIndicator
-//@   requires aligned(w) && 0 <= wN(w) && wN(w) < 0x400000000000 && okPrivateDataIndicator(d)
+//@   requires aligned(w) && 0 <= wN(w) && wN(w) < 0x100000000000 && okPrivateDataIndicator(d)
 //@   modifies writer(w)
 //@   ensures [C14,C13,C09] body: wN(w) == old(wN(w)) + lenPrivateDataIndicator(d) && aligned(w) && result == nil
 //@   ensures [C14,C13,C09] prefix: wPrefix(w)
@@ -1324,7 +1324,7 @@ package astits
 //@   requires d != nil ==> okPrivateDataSpecifier(d)
 //@   ensures [C14,C13,C09] len: result == ite(d == nil, 0, u8(lenPrivateDataSpecifier(d)))
 //@ func writeDescriptorPrivateDataSpecifier
-//@   requires aligned(w) && 0 <= wN(w) && wN(w) < 0x400000000000 && okPrivateDataSpecifier(d)
+//@   requires aligned(w) && 0 <= wN(w) && wN(w) < 0x100000000000 && okPrivateDataSpecifier(d)
 //@   modifies writer(w)
 //@   ensures [C14,C13,C09] body: wN(w) == old(wN(w)) + lenPrivateDataSpecifier(d) && aligned(w) && result == nil
 //@   ensures [C14,C13,C09] prefix: wPrefix(w)
@@ -1333,7 +1333,7 @@ package astits
 //@   requires d != nil ==> okRegistration(d)
 //@   ensures [C14,C13,C09] len: result == ite(d == nil, 0, u8(lenRegistration(d)))
 //@ func writeDescriptorRegistration
-//@   requires aligned(w) && 0 <= wN(w) && wN(w) < 0x400000000000 && okRegistration(d)
+//@   requires aligned(w) && 0 <= wN(w) && wN(w) < 0x100000000000 && okRegistration(d)
 //@   modifies writer(w)
 //@   ensures [C14,C13,C09] body: wN(w) == old(wN(w)) + lenRegistration(d) && aligned(w) && result == nil
 //@   ensures [C14,C13,C09] prefix: wPrefix(w)
@@ -1342,7 +1342,7 @@ package astits
 //@   requires d != nil ==> okService(d)
 //@   ensures [C14,C13,C09] len: result == ite(d == nil, 0, u8(lenService(d)))
 //@ func writeDescriptorService
-//@   requires aligned(w) && 0 <= wN(w) && wN(w) < 0x400000000000 && okService(d)
+//@   requires aligned(w) && 0 <= wN(w) && wN(w) < 0x100000000000 && okService(d)
 //@   modifies writer(w)
 //@   ensures [C14,C13,C09] body: wN(w) == old(wN(w)) + lenService(d) && aligned(w) && result == nil
 //@   ensures [C14,C13,C09] prefix: wPrefix(w)
@@ -1351,7 +1351,7 @@ package astits
 //@   requires d != nil ==> okShortEvent(d)
 //@   ensures [C14,C13,C09] len: result == ite(d == nil, 0, u8(lenShortEvent(d)))
 //@ func writeDescriptorShortEvent
-//@   requires aligned(w) && 0 <= wN(w) && wN(w) < 0x400000000000 && okShortEvent(d)
+//@   requires aligned(w) && 0 <= wN(w) && wN(w) < 0x100000000000 && okShortEvent(d)
 //@   modifies writer(w)
 //@   ensures [C14,C13,C09] body: wN(w) == old(wN(w)) + lenShortEvent(d) && aligned(w) && result == nil
 //@   ensures [C14,C13,C09] prefix: wPrefix(w)
@@ -1360,7 +1360,7 @@ package astits
 //@   requires d != nil ==> okStreamIdentifier(d)
 //@   ensures [C14,C13,C09] len: result == ite(d == nil, 0, u8(lenStreamIdentifier(d)))
 //@ func writeDescriptorStreamIdentifier
-//@   requires aligned(w) && 0 <= wN(w) && wN(w) < 0x400000000000 && okStreamIdentifier(d)
+//@   requires aligned(w) && 0 <= wN(w) && wN(w) < 0x100000000000 && okStreamIdentifier(d)
 //@   modifies writer(w)
 //@   ensures [C14,C13,C09] body: wN(w) == old(wN(w)) + lenStreamIdentifier(d) && aligned(w) && result == nil
 //@   ensures [C14,C13,C09] prefix: wPrefix(w)
@@ -1369,7 +1369,7 @@ package astits
 //@   requires d != nil ==> okUnknown(d)
 //@   ensures [C14,C13,C09] len: result == ite(d == nil, 0, u8(lenUnknown(d)))
 //@ func writeDescriptorUnknown
-//@   requires aligned(w) && 0 <= wN(w) && wN(w) < 0x400000000000 && okUnknown(d)
+//@   requires aligned(w) && 0 <= wN(w) && wN(w) < 0x100000000000 && okUnknown(d)
 //@   modifies writer(w)
 //@   ensures [C14,C13,C09] body: wN(w) == old(wN(w)) + lenUnknown(d) && aligned(w) && result == nil
 //@   ensures [C14,C13,C09] prefix: wPrefix(w)
@@ -1378,7 +1378,7 @@ package astits
 //@   requires d != nil ==> okContent(d)
 //@   ensures [C14,C13,C09] len: result == ite(d == nil, 0, u8(lenContent(d)))
 //@ func writeDescriptorContent
-//@   requires aligned(w) && 0 <= wN(w) && wN(w) < 0x400000000000 && okContent(d)
+//@   requires aligned(w) && 0 <= wN(w) && wN(w) < 0x100000000000 && okContent(d)
 //@   modifies writer(w)
 //@   loop 0 invariant [C14,C13,C09] items: rangeindex == iter - 1 && iter <= len(d.Items) && aligned(w) && b.err == nil && wN(w) == atentry(wN(w)) + 2 * iter && wPrefix(w)
 //@   ensures [C14,C13,C09] body: wN(w) == old(wN(w)) + lenContent(d) && aligned(w) && result == nil
@@ -1388,7 +1388,7 @@ package astits
 //@   requires d != nil ==> okParentalRating(d)
 //@   ensures [C14,C13,C09] len: result == ite(d == nil, 0, u8(lenParentalRating(d)))
 //@ func writeDescriptorParentalRating
-//@   requires aligned(w) && 0 <= wN(w) && wN(w) < 0x400000000000 && okParentalRating(d)
+//@   requires aligned(w) && 0 <= wN(w) && wN(w) < 0x100000000000 && okParentalRating(d)
 //@   modifies writer(w)
 //@   loop 0 invariant [C14,C13,C09] items: rangeindex == iter - 1 && iter <= len(d.Items) && aligned(w) && b.err == nil && wN(w) == atentry(wN(w)) + 4 * iter && wPrefix(w)
 //@   ensures [C14,C13,C09] body: wN(w) == old(wN(w)) + lenParentalRating(d) && aligned(w) && result == nil
@@ -1398,7 +1398,7 @@ package astits
 //@   requires d != nil ==> okSubtitling(d)
 //@   ensures [C14,C13,C09] len: result == ite(d == nil, 0, u8(lenSubtitling(d)))
 //@ func writeDescriptorSubtitling
-//@   requires aligned(w) && 0 <= wN(w) && wN(w) < 0x400000000000 && okSubtitling(d)
+//@   requires aligned(w) && 0 <= wN(w) && wN(w) < 0x100000000000 && okSubtitling(d)
 //@   modifies writer(w)
 //@   loop 0 invariant [C14,C13,C09] items: rangeindex == iter - 1 && iter <= len(d.Items) && aligned(w) && b.err == nil && wN(w) == atentry(wN(w)) + 8 * iter && wPrefix(w)
 //@   ensures [C14,C13,C09] body: wN(w) == old(wN(w)) + lenSubtitling(d) && aligned(w) && result == nil
@@ -1408,17 +1408,27 @@ package astits
 //@   requires d != nil ==> okTeletext(d)
 //@   ensures [C14,C13,C09] len: result == ite(d == nil, 0, u8(lenTeletext(d)))
 //@ func writeDescriptorTeletext
-//@   requires aligned(w) && 0 <= wN(w) && wN(w) < 0x400000000000 && okTeletext(d)
+//@   requires aligned(w) && 0 <= wN(w) && wN(w) < 0x100000000000 && okTeletext(d)
 //@   modifies writer(w)
 //@   loop 0 invariant [C14,C13,C09] items: rangeindex == iter - 1 && iter <= len(d.Items) && aligned(w) && b.err == nil && wN(w) == atentry(wN(w)) + 5 * iter && wPrefix(w)
 //@   ensures [C14,C13,C09] body: wN(w) == old(wN(w)) + lenTeletext(d) && aligned(w) && result == nil
+//@   ensures [C14,C13,C09] prefix: wPrefix(w)
+
+//@ func calcDescriptorLocalTimeOffsetLength
+//@   requires d != nil ==> okLocalTimeOffset(d)
+//@   ensures [C14,C13,C09] len: result == ite(d == nil, 0, u8(lenLocalTimeOffset(d)))
+//@ func writeDescriptorLocalTimeOffset
+//@   requires aligned(w) && 0 <= wN(w) && wN(w) < 0x100000000000 && okLocalTimeOffset(d)
+//@   modifies writer(w)
+//@   loop 0 invariant [C14,C13,C09] items: rangeindex == iter - 1 && iter <= len(d.Items) && aligned(w) && b.err == nil && wN(w) == atentry(wN(w)) + 13 * iter && wPrefix(w)
+//@   ensures [C14,C13,C09] body: wN(w) == old(wN(w)) + lenLocalTimeOffset(d) && aligned(w) && result == nil
 //@   ensures [C14,C13,C09] prefix: wPrefix(w)
 
 //@ func calcDescriptorUserDefinedLength
 //@   requires 0 <= len(d) && len(d) <= 255
 //@   ensures [C14,C13,C09] len: result == u8(len(d))
 //@ func writeDescriptorUserDefined
-//@   requires aligned(w) && 0 <= wN(w) && wN(w) < 0x400000000000 && 0 <= len(d) && len(d) <= 255 && allocated(d)
+//@   requires aligned(w) && 0 <= wN(w) && wN(w) < 0x100000000000 && 0 <= len(d) && len(d) <= 255 && allocated(d)
 //@   modifies writer(w)
 //@   ensures [C14,C13,C09] body: wN(w) == old(wN(w)) + len(d) && aligned(w) && result == nil
 //@   ensures [C14,C13,C09] prefix: wPrefix(w)
@@ -1431,7 +1441,7 @@ package astits
 
 // writeDescriptor: the length byte announces exactly the number of body bytes that follow, for every covered tag.
 //@ func writeDescriptor
-//@   requires aligned(w) && 0 <= wN(w) && wN(w) < 0x200000000000 && descOK(d) && bodyPresent(d) && dLen(d) <= 255
+//@   requires aligned(w) && 0 <= wN(w) && wN(w) < 0x080000000000 && descOK(d) && bodyPresent(d) && dLen(d) <= 255
 //@   modifies writer(w)
 //@   let n0 = old(wN(w))
 //@   ensures [C14,C13,C09] header: result1 == nil ==> wb(w, n0, 0) == d.Tag && (tagCovered(d.Tag) ==> wb(w, n0, 1) == u8(dLen(d)))
@@ -1442,15 +1452,11 @@ package astits
 // the lengths they compute or emit, and nothing is claimed for their tags.
 //@ extern calcDescriptorExtendedEventLength
 //@ extern calcDescriptorExtensionLength
-//@ extern calcDescriptorLocalTimeOffsetLength
 //@ extern calcDescriptorVBIDataLength
 //@ extern writeDescriptorExtendedEvent
 //@   modifies writer(w)
 //@   ensures [C14,C13,C09] prefix: wPrefix(w)
 //@ extern writeDescriptorExtension
-//@   modifies writer(w)
-//@   ensures [C14,C13,C09] prefix: wPrefix(w)
-//@ extern writeDescriptorLocalTimeOffset
 //@   modifies writer(w)
 //@   ensures [C14,C13,C09] prefix: wPrefix(w)
 //@ extern writeDescriptorVBIData
@@ -1460,7 +1466,7 @@ package astits
 
 // writeDescriptors: the count returned is the number of bytes emitted (every descriptor occupying 2 + its length).
 //@ func writeDescriptors
-//@   requires aligned(w) && 0 <= wN(w) && wN(w) < 0x100000000000 && 0 <= len(ds) && len(ds) <= 4096 && allocated(ds) && forall(k, 0, len(ds), descOK(ds[k]) && bodyPresent(ds[k]) && dLen(ds[k]) <= 255 && tagCovered(ds[k].Tag))
+//@   requires aligned(w) && 0 <= wN(w) && wN(w) < 0x040000000000 && 0 <= len(ds) && len(ds) <= 4096 && allocated(ds) && forall(k, 0, len(ds), descOK(ds[k]) && bodyPresent(ds[k]) && dLen(ds[k]) <= 255 && tagCovered(ds[k].Tag))
 //@   modifies writer(w)
 //@   loop 0 invariant [C14,C13,C09] idx: rangeindex == iter - 1 && iter <= len(ds) && aligned(w) && wN(w) == old(wN(w)) + written && 0 <= written && written <= 257 * iter && wPrefix(w)
 //@   ensures [C14,C13,C09] count: result1 == nil ==> wN(w) == old(wN(w)) + result0 && aligned(w) && wPrefix(w)
